@@ -10,6 +10,7 @@ import (
 	"strconv"
 
 	"github.com/go-openapi/analysis/internal/debug"
+	"github.com/go-openapi/analysis/internal/verifhook"
 	"github.com/go-openapi/jsonpointer"
 	"github.com/go-openapi/spec"
 )
@@ -346,6 +347,7 @@ func DeepestRef(sp *spec.Swagger, opts *spec.ExpandOptions, ref spec.Ref) (*Deep
 
 DOWNREF:
 	for currentRef.String() != "" {
+		verifhook.Loop("DeepestRef")
 		if path.Dir(currentRef.String()) == definitionsPath {
 			// this is a top-level definition: stop here and return this ref
 			return &DeepestRefResult{Ref: currentRef}, nil
